@@ -1,148 +1,140 @@
 package main
 
 import (
-	"bytes"
 	"fmt"
-	"os"
 	"strings"
-
-	epb "github.com/google/gce-tcb-verifier/proto/endorsement"
-	"google.golang.org/protobuf/proto"
 )
 
-// Stream c06cli: the signed document of a REAL run of the shipped command line
-// (cmd.MakeApp … endorse --uefi fw.fd --add_snp/--add_tdx …, SVN taken from the S_CRTM side file in both of its
-// spellings) is decoded from the file the run writes and checked against this property's document oracle
-// (c06OracleGolden): digest, SVNs of every endorsed technology, measurements, ids, provenance, timestamp.
-// The flag/side-file wiring of cmd/endorse.go is glue the endorse.Context-level stream c06 cannot see.
-// The protocol line is the c15 line (same model: Drive/C15), so the run is also compared with the Lean model.
+// Stream c06cli: the signed document of a REAL run of the shipped command line (cmd.MakeApp … endorse --uefi fw.fd
+// --add_snp/--add_tdx …) is decoded from the file the run writes and held against this property's document oracle
+// (c06OracleGolden + timestamp): digest, SVN of the S_CRTM side file in EVERY endorsed technology, measurements for the
+// named counts / product / shapes, ids, provenance, timestamp.  Every command line is also a `cli op=run` protocol
+// line: the Lean model of the command (Model/EndorseCli.lean — flag parsing, PersistentPreRunE, InitContext, hand-over
+// to the pipeline model) must yield the same endorse.Context field by field, the same result and the same effect log.
 func init() {
-	register("c06cli", "real `endorse` command (cobra wiring of cmd/endorse.go, cmd/flags.go) over recording doubles: technology subsets x "+
-		"S_CRTM side file absent/present in both spellings x snapshot/manifest mode x images; the written endorsement is decoded and held "+
-		"against the document oracle of C06; plus `--snp_product Turin` (no address width: the run must fail, write / sign / print nothing) next to the same flags with Milan; "+
-		"non-trivial = the run wrote a document, or is one of the product cases.", runC06CLI)
+	register("c06cli", "real `endorse` command (cobra wiring of cmd/endorse.go, cmd/flags.go) over recording doubles, every command line compared with the Lean "+
+		"model of the command: technology subsets x S_CRTM side file {absent, <stem>_scrtm_ver.pb, <image>.scrtm.pb, both} x SVN values x snapshot/manifest mode x "+
+		"images, with product, VMSA count, ids, machine shapes, early accept, clspec, commit, timestamp (flag / wall clock) drawn per case; the written endorsement is "+
+		"decoded and held against the document oracle of C06; plus `--snp_product Turin` (no address width: the run must fail, write / sign / print nothing) next to "+
+		"the same flags with Milan and Genoa. Non-trivial: the run wrote a document, or the command line was refused.", runC06CLI)
 }
 
 func runC06CLI(c *Ctx) {
-	mk := func(name string, size int, tag byte, s, t bool, nTemp int) *c06Image {
-		return &c06Image{name: name, fw: c06Firmware(size, tag, s, t, nTemp), ld: map[string][]byte{}, mr: map[string][]byte{}}
-	}
-	images := []*c06Image{mk("both-8k-c", 0x2000, 31, true, true, 0), mk("both-12k-c", 0x3000, 33, true, true, 2)}
-	base := c06Req{svn: 7, tsvn: 9, cl: 123456789, commit: bytes.Repeat([]byte{0xcd}, 20), ts: baseTime, keysMode: "full", caErr: "none",
-		iid: "87654321-dead-beef-c0de-123456789abc", rndSeed: 5, prod: 1}
-	cliDir, err := os.MkdirTemp("", "verif-c06cli-")
-	if err != nil {
-		panic(err)
-	}
-	defer os.RemoveAll(cliDir)
-	svns := []uint32{0, 1, 5, 0x7fffffff}
+	images := cliImages(31)
+	pick := func(n int) int { return c.Rng.Intn(n) }
+	svns := []uint32{1, 5, 0x7fffffff}
 	if c.Tier == "thorough" {
-		svns = append(svns, 2, 3, 255, 65536)
+		svns = append(svns, 2, 3, 255, 65536, 0x80000000, 0xffffffff)
 	}
-	for _, im := range images {
-		for _, tech := range [][2]bool{{true, false}, {false, true}, {true, true}} {
-			for _, svn := range svns {
-				for _, alt := range []bool{false, true} {
-					if svn == 0 && alt {
-						continue
-					}
-					for _, snap := range []bool{false, true} {
-						r := base
-						r.im, r.snp, r.tdx, r.vm, r.svn, r.tsvn = im, tech[0], tech[1], 2, svn, svn
-						r.cl, r.commit = 77, nil
-						if !tech[0] {
-							r.vm = 0
+	cliWithDir(func(dir string) {
+		for _, im := range images {
+			for _, tech := range cliTechs[1:] {
+				for _, st := range []string{"absent", "stem", "image", "both"} {
+					for _, svn := range svns {
+						if st == "absent" && svn != svns[0] {
+							continue
 						}
-						if tech[1] {
-							r.shapes, r.early = []string{"c3-standard-4"}, snap
-						}
-						cs := c15Case{r: r, snap: snap, ow: true, cand: map[bool]string{false: "", true: "rc3"}[snap],
-							budget: 2, vcsMode: "one", mread: 'M', cli: true, cliDir: cliDir, sideAlt: alt}
-						res, line := c15Run(cs)
-						short := c15ShortLine(line) + fmt.Sprintf(" sidefile=%s", map[bool]string{false: "fw_scrtm_ver.pb", true: "fw.fd.scrtm.pb"}[alt])
-						find := func(clause, what string) { c.Find("c06/cli/"+clause, what, short) }
-						wrote := false
-						if res.res != "ok" {
-							find("does-not-complete", "a real run of the endorse command failed ("+res.res+") although measuring, signing and the back end succeed")
-						}
-						for _, v := range res.vcss {
-							for p, b := range v.files {
-								if strings.HasSuffix(p, ".binarypb") || strings.HasSuffix(p, ".signed") {
-									e := &epb.VMLaunchEndorsement{}
-									g := &epb.VMGoldenMeasurement{}
-									if proto.Unmarshal(b, e) != nil || proto.Unmarshal(e.SerializedUefiGolden, g) != nil {
-										find("written-endorsement-undecodable", "the endorsement file does not decode")
-										continue
-									}
-									wrote = true
-									c06OracleGolden(c, cs.r, g, c06ExpectedRandomUUID(cs.r.rndSeed), func(entry, clause, what string) {
-										find("written-document/"+clause, what)
-									}, "endorse-command")
-								}
+						for _, snap := range []bool{false, true} {
+							cs := cliCase{im: im, uefi: []string{"fw.fd", "build/ovmf_x64.fd"}[pick(2)], addSnp: tech[0], addTdx: tech[1], outDir: "out",
+								ow: true, rndSeed: uint64(5 + pick(4)), mread: []byte{'N', 'M'}[pick(2)], tag: "doc/" + st, files: map[string][]byte{}}
+							p1, p2 := cliSidePaths(cs.uefi)
+							switch st {
+							case "stem":
+								cs.files[p1] = cliSideFile(svn)
+							case "image":
+								cs.files[p2] = cliSideFile(svn)
+							case "both":
+								cs.files[p1] = cliSideFile(svn)
+								cs.files[p2] = cliSideFile(svn + 1)
+							}
+							if snap {
+								cs.snap, cs.cand = "snap", "rc3"
+							}
+							// the valued flags of a technology are sometimes given although the technology is not added: they must be dropped
+							if tech[0] || pick(3) == 0 {
+								cs.vm = []string{"", "1", "2", "4", "0"}[pick(5)]
+								cs.prod = [][]string{nil, {"Milan"}, {"Genoa"}, {"Milan", "", "Genoa"}}[pick(4)]
+								cs.iid = []string{"", cliIID}[pick(2)]
+								cs.fam = []string{"", cliFAM}[pick(2)]
+							}
+							if tech[1] || pick(3) == 0 {
+								cs.shapes = [][]string{nil, {"c3-standard-4"}, {"c3-standard-44", "c3-standard-4"}, {"c3-standard-8", "c3-standard-8"}}[pick(4)]
+								cs.early = pick(2) == 0
+							}
+							cs.ts = [][]string{{cliT1}, nil, {cliT2}, {"1969-12-31T23:59:59.75Z"}}[pick(4)]
+							if pick(2) == 0 {
+								h := cliHex20
+								cs.commit = &h
+							}
+							cs.cl = []string{"", "77", "123456789"}[pick(3)]
+							cs.retries = []string{"", "2"}[pick(2)]
+							if pick(5) == 0 {
+								cs.svsmM = "svsm_meas.txt"
+								cs.files["svsm_meas.txt"] = []byte(strings.Repeat("5c", 48) + "\n")
+							}
+							_, wrote := cliOne(c, "c06/cli", dir, cs)
+							c.Count(fmt.Sprintf("doc-written/%s/%s", st, b2s(wrote)))
+							// the same command line as a dry run: no document is written, but the request handed to the pipeline (and signed)
+							// must name the same things
+							if pick(3) == 0 {
+								cs.dry, cs.tag = true, "dry/"+st
+								cliOne(c, "c06/cli", dir, cs)
 							}
 						}
-						if res.res == "ok" && !wrote {
-							find("no-document-written", "the run succeeded but no endorsement file was written")
-						}
-						c.Case(line, fmt.Sprintf("res=%s eff=%s", res.res, strings.Join(res.effs, ",")), wrote)
-						c.Count(fmt.Sprintf("cli/snp%s-tdx%s/svn%d/alt%s/%s", b2s(tech[0]), b2s(tech[1]), svn, b2s(alt), res.res))
 					}
 				}
 			}
 		}
-	}
 
-	// ---- `--snp_product Turin` ----------------------------------------------------------------------------------
-	// kds.ParseProductLine accepts "Turin" (enum value 3), for which sev.bitWidth has no entry.  Before the product-check fix the
-	// command measured an image whose ROM and SNP metadata ranges all have two pages or more with the VMSA pages at
-	// guest-physical address 0 and signed / printed that — the launch digest of no AMD product.  Clause of C06
-	// ("a failing constituent measurement fails the request; no document") at the seam with C04: the run must fail,
-	// write no file, sign nothing and (--measurement_only) print no measurement; the same flags with Milan complete.
-	wide := &c06Image{name: "wide-8k", ld: map[string][]byte{}, mr: map[string][]byte{},
-		fw: c04Standard(0x2000, 0x80b004, []c04Sec{{0x80D000, 0x2000, 2}, {0x800000, 0x9000, 1}, {0x80F000, 0x2000, 3}, {0x80B000, 0x2000, 4}}, 0x1000).build()}
-	for _, im := range []*c06Image{wide, images[0]} {
-		for _, prod := range []int{3, 1} {
-			for _, vm := range []uint32{1, 4, 0} {
-				for _, mo := range []bool{false, true} {
-					if vm == 0 && (prod == 1 || !mo) && c.Quick() {
-						continue
+		// ---- `--snp_product Turin` ------------------------------------------------------------------------------
+		// kds.ParseProductLine accepts "Turin" (enum value 3), for which sev.bitWidth has no entry.  Before the product-check
+		// fix the command measured an image whose ROM and SNP metadata ranges all have two pages or more with the VMSA pages
+		// at guest-physical address 0 and signed / printed that — the launch digest of no AMD product.  Clause of C06 ("a
+		// failing constituent measurement fails the request; no document") at the seam with C04: the run must fail, write no
+		// file, sign nothing and (--measurement_only) print no measurement; the same flags with Milan / Genoa complete.
+		wide := &c06Image{name: "wide-8k", ld: map[string][]byte{}, mr: map[string][]byte{},
+			fw: c04Standard(0x2000, 0x80b004, []c04Sec{{0x80D000, 0x2000, 2}, {0x800000, 0x9000, 1}, {0x80F000, 0x2000, 3}, {0x80B000, 0x2000, 4}}, 0x1000).build()}
+		for _, im := range []*c06Image{wide, images[0]} {
+			for _, prod := range []string{"Turin", "Milan", "Genoa"} {
+				for _, vm := range []string{"1", "4", ""} {
+					for _, mo := range []bool{false, true} {
+						if vm == "" && (prod != "Turin" || !mo) && c.Quick() {
+							continue
+						}
+						cs := cliCase{im: im, uefi: "fw.fd", addSnp: true, outDir: "out", ow: true, rndSeed: 5, mread: 'M', tag: "product-" + prod + "/" + im.name,
+							vm: vm, prod: []string{prod}, iid: cliIID, cl: "77", retries: "2", ts: []string{cliT1}, mo: mo,
+							files: map[string][]byte{"fw_scrtm_ver.pb": cliSideFile(5)}}
+						res, line := cliRun(cs, dir)
+						cliOracle(c, "c06/cli", cs, res, line)
+						short := cliShortLine(line)
+						find := func(clause, what string) { c.Find("c06/cli/"+clause, what, short) }
+						files, printed := len(res.v0.files), 0
+						for _, e := range res.effs {
+							if strings.HasPrefix(e, "out:") {
+								printed++
+							}
+						}
+						if prod == "Turin" {
+							if res.res == "ok" {
+								find("unsupported-product/completes", "`endorse --add_snp --snp_product Turin` completed although Turin has no known address width (no launch digest is defined for it)")
+							}
+							if files > 0 {
+								find("unsupported-product/document-written", fmt.Sprintf("`endorse --snp_product Turin` wrote %d file(s)", files))
+							}
+							if len(res.signed) > 0 {
+								find("unsupported-product/signed", "`endorse --snp_product Turin` asked the signer for a signature")
+							}
+							if printed > 0 {
+								find("unsupported-product/measurement-printed", fmt.Sprintf("`endorse --measurement_only --snp_product Turin` printed %d measurement line(s)", printed))
+							}
+						} else if res.res != "ok" || (!mo && files == 0) || (mo && printed == 0) {
+							find("does-not-complete", "the control run (same flags, --snp_product "+prod+") did not complete ("+res.res+")")
+						}
+						c.Case(line, res.impl(), true)
+						c.Count(fmt.Sprintf("product-%s/%s/vm%s/mo%s/%s", prod, im.name, vm, b2s(mo), res.res))
 					}
-					r := base
-					r.im, r.snp, r.tdx, r.vm, r.svn, r.prod = im, true, false, vm, 5, prod
-					r.cl, r.commit = 77, nil
-					cs := c15Case{r: r, mo: mo, ow: true, budget: 2, vcsMode: "one", mread: 'M', cli: true, cliDir: cliDir}
-					res, line := c15Run(cs)
-					short := c15ShortLine(line) + " snp_product=" + []string{"", "Milan", "Genoa", "Turin"}[prod]
-					find := func(clause, what string) { c.Find("c06/cli/"+clause, what, short) }
-					files, printed := 0, 0
-					for _, v := range res.vcss {
-						files += len(v.files)
-					}
-					for _, e := range res.effs {
-						if strings.HasPrefix(e, "out:") {
-							printed++
-						}
-					}
-					if prod == 3 {
-						if res.res == "ok" {
-							find("unsupported-product/completes", "`endorse --add_snp --snp_product Turin` completed although Turin has no known address width (no launch digest is defined for it)")
-						}
-						if files > 0 {
-							find("unsupported-product/document-written", fmt.Sprintf("`endorse --snp_product Turin` wrote %d file(s)", files))
-						}
-						if len(res.signed) > 0 {
-							find("unsupported-product/signed", "`endorse --snp_product Turin` asked the signer for a signature")
-						}
-						if printed > 0 {
-							find("unsupported-product/measurement-printed", fmt.Sprintf("`endorse --measurement_only --snp_product Turin` printed %d measurement line(s)", printed))
-						}
-					} else if res.res != "ok" || (!mo && files == 0) || (mo && printed == 0) {
-						find("does-not-complete", "the control run (same flags, --snp_product Milan) did not complete ("+res.res+")")
-					}
-					c.Case(line, fmt.Sprintf("res=%s eff=%s", res.res, strings.Join(res.effs, ",")), true)
-					c.Count(fmt.Sprintf("cli/product-%s/%s/vm%d/mo%s/%s", []string{"", "Milan", "Genoa", "Turin"}[prod], im.name, vm, b2s(mo), res.res))
 				}
 			}
 		}
-	}
+	})
 }
